@@ -699,6 +699,14 @@ static int get_operands(
       if (strcasecmp(token, "aq") == 0) { modifiers->aq = 1; continue; }
       if (strcasecmp(token, "rl") == 0) { modifiers->rl = 1; continue; }
 
+      // instr_case is TOKENLEN bytes and any number of .suffix tokens can
+      // follow the mnemonic.
+      if (strlen(instr_case) + strlen(token) + 2 > TOKENLEN)
+      {
+        print_error_unexp(asm_context, token);
+        return -1;
+      }
+
       strcat(instr_case, ".");
       strcat(instr_case, token);
       continue;
